@@ -143,33 +143,64 @@ def r20_1(run):
     run.floor(12)
 
 
+def _cellnorm(t):
+    """scalar (.at[i, c]) and vector (.loc[i, c].values[:]) spellings of the same cell access"""
+    from ..arrnf import FULL
+    if not isinstance(t, tuple) or not t:
+        return t
+    if t[0] == "attr" and t[2] in ("at", "loc", "iat", "iloc"):
+        return ("attr", _cellnorm(t[1]), "loc")
+    if t[0] == "attr" and t[2] in ("values", "array"):
+        return _cellnorm(t[1])
+    if t[0] == "call" and t[1][0] == "attr" and t[1][2] in ("to_numpy", "item") and not t[2]:
+        return _cellnorm(t[1][1])
+    if t[0] == "idx" and t[2] == (FULL,):
+        return _cellnorm(t[1])
+    return tuple(_cellnorm(x) for x in t)
+
+
 def r20_2(run):
     ix = run.index
+    from ..arrnf import ANF, key as tkey, show as tshow, match
     n_pairs = 0
     for cname in ("P2GControlMultiEnergy", "G2PControlMultiEnergy", "GasToGasConversion"):
         ci = _cls(ix, cname)
         for mname in ("control_step", "write_to_net"):
             f = ci.methods[mname]
             run.analysed(f)
-            for label, a, b, node in _arms(f):
-                n_pairs += 1
-                is_write = isinstance(a.targets[0], ast.Subscript)
-                ra = _cell_refs(a.targets[0] if is_write else a.value)
-                rb = _cell_refs(b.targets[0] if is_write else b.value)
-                key = "%s.%s|%s|%s" % (cname, mname, "&".join(label) or "-", U(a.targets[0])[:40] if not is_write else "write")
-                same = [x[:4] for x in ra] == [x[:4] for x in rb] and bool(ra)
-                kinds = {x[4] for x in ra} == {"at"} and {x[4] for x in rb} == {"loc"}
-                run.ob(key + "|same-cells", same and kinds,
-                       "the scalar (.at) and the vector (.loc) arm address the same net, table, index and column(s)",
-                       run.where(f, node), detail="%s / %s" % (ra, rb))
-                if not is_write:
-                    cols = [x[3] for x in ra]
-                    one_elem = len({x[:3] for x in ra}) == 1
-                    run.ob(key + "|value*scaling", len(ra) == 2 and "scaling" in cols and one_elem and isinstance(a.value, ast.BinOp)
-                           and isinstance(a.value.op, ast.Mult) and isinstance(b.value, ast.BinOp) and isinstance(b.value.op, ast.Mult),
-                           "the read value is the element's column times its scaling column", run.where(f, node))
-                else:
-                    run.ob(key + "|same-value", U(a.value) == U(b.value), "both arms store the same attribute", run.where(f, node))
+            r = ANF(ix, f).run()
+            for t in r.tries:
+                label = "&".join(("" if p else "not ") + tshow(c) for c, p in t["cond"]) or "-"
+                if len(t["handlers"]) != 1:
+                    raise AnalysisError("%s.%s: try with %d handlers" % (cname, mname, len(t["handlers"])))
+                h = t["handlers"][0]
+                where = run.where(f, t["node"])
+                bst = [e for e in r.events[t["body_events"][0]:t["body_events"][1]] if e.kind == "store"]
+                hst = [e for e in r.events[h["events"][0]:h["events"][1]] if e.kind == "store"]
+                names = sorted(set(t["body"]) | {k for k in h["env"] if k in t["body"]})
+                for nm in names:
+                    n_pairs += 1
+                    a, b = t["body"].get(nm), h["env"].get(nm)
+                    k0 = "%s.%s|%s|%s" % (cname, mname, label, nm)
+                    run.ob(k0 + "|same-cells", b is not None and tkey(_cellnorm(a)) == tkey(_cellnorm(b)),
+                           "the scalar (.at) and the fallback (.loc) arm read the same cells in the same order: %s" % nm, where,
+                           detail="%s / %s" % (tshow(a)[:200], tshow(b)[:200] if b is not None else None))
+                    v = _cellnorm(a)
+                    ok = v[0] == "opn" and v[1] == "*" and len(v[2]) == 2
+                    if ok:
+                        m1 = match(("idx", ("attr", ("?", "tbl"), "loc"), (("?", "i"), ("?", "c1"))), v[2][0])
+                        m2 = match(("idx", ("attr", ("?", "tbl"), "loc"), (("?", "i"), ("?", "c2"))), v[2][1])
+                        ok = m1 is not None and m2 is not None and tkey(m1["tbl"]) == tkey(m2["tbl"]) and tkey(m1["i"]) == tkey(m2["i"]) \
+                            and ("c", "scaling") in (m1["c1"], m2["c2"]) and m1["c1"] != m2["c2"]
+                    run.ob(k0 + "|value*scaling", ok, "the read value is the element's column times its scaling column (same table, same rows)", where,
+                           detail=tshow(v)[:200])
+                if bst or hst:
+                    n_pairs += 1
+                    k0 = "%s.%s|%s|write" % (cname, mname, label)
+                    same = len(bst) == len(hst) == 1 and tkey(_cellnorm(("idx", bst[0].base, bst[0].index))) == tkey(_cellnorm(("idx", hst[0].base, hst[0].index)))
+                    run.ob(k0 + "|same-cells", same, "the scalar (.at) and the fallback (.loc) arm write the same cells", where)
+                    run.ob(k0 + "|same-value", same and tkey(_cellnorm(bst[0].value)) == tkey(_cellnorm(hst[0].value)),
+                           "both arms store the same value", where)
     run.ob("arm-pairs-found", n_pairs >= 8, "try/except arm pairs found (%d)" % n_pairs, MC)
     run.floor(17)
 
